@@ -1,11 +1,11 @@
 """C11 - an exception during evaluation leaves the computation consistent and reusable."""
 from .common import Decision, run_units
-from .series_props import specs_evals, specs_product, specs_index, fold_canaries
+from .series_props import specs_evals, specs_product, specs_index, specs_solver, fold_canaries
 
 
 def check(tier, seed):
     d = Decision("C11", tier, seed)
-    specs = specs_index(tier) + specs_product(tier) + specs_evals(tier)
+    specs = specs_index(tier) + specs_product(tier) + specs_evals(tier) + specs_solver(tier)
     d.add_units(fold_canaries(run_units(specs)))
     d.assumptions += [
         "only synchronous exceptions raised by the callback are covered (any class, incl. KeyboardInterrupt raised by the callback); "
@@ -15,6 +15,8 @@ def check(tier, seed):
     d.explanation = ("Exceptional postconditions of BlockSeries.__getitem__ for an arbitrary addressed index, arbitrary cache state and a "
                      "symbolic exception class (RuntimeError / other Exception / BaseException only): the in-flight marker is removed, no other "
                      "entry is left in flight, the cache invariant holds, non-RuntimeErrors propagate unchanged and RuntimeErrors are chained.  "
-                     "Generated evaluators and product_by_order hold no state besides cache deletions, which are value-neutral (C10).")
+                     "Generated evaluators and product_by_order hold no state besides cache deletions, which are value-neutral (C10).  The only other state kept "
+                     "across requests is the built-in solver's record of validated block pairs: solve_sylvester_diagonal is proved to record a pair only after a successful "
+                     "check (obligation raise-leaves-pair-unrecorded), so a request that raised is not remembered as validated.")
     d.run_battery("series_battery.py", ['fault'], "shapes <= (2,3), <= 2 infinite dimensions, orders <= 3, fixed list of index entries, 4x4 two-block problems; see replay/series_battery.py")
     return d.finish(level="proof", trusted_base=["contracts/series_index.py", "contracts/algorithm_evals.py"])
